@@ -649,7 +649,9 @@ fn run_case(bytes: &[u8], vb: Option<&Base>, mode: &str) -> CaseOut {
     };
     let field_ok = proof.context.field_modulus_bytes() == modulus_bytes(field).as_slice();
     let opts_ok = mode != "o" || *proof.options() == vb.opts.to_options();
-    if field_ok && opts_ok {
+    // verify() refuses options with at least as many queries as LDE domain points before it builds the AIR
+    let queries_ok = proof.options().num_queries() < proof.lde_domain_size();
+    if field_ok && opts_ok && queries_ok {
         // the security level is computed before the AIR is built; a panic there must not be
         // attributed to the AIR constructor, so the constructor is only probed when it returns
         let sec = guarded(|| acc.validate::<Blake3_256<f64::BaseElement>>(&proof));
